@@ -14,3 +14,4 @@ void conf_env_setup(const plan_t *p);
 char *conf_ref_expand(const char *text, int *dc);      /* confsim10.c: the reference expander */
 extern const char *conf_tree_prefix;                    /* directory (below /cfg) that conf_tree_add puts files into */
 #endif
+void conf_allow_record_overflow(int on);
